@@ -449,7 +449,7 @@ pub type DateTimeString = String;
     ensures r.id == id, r.location == location, r.start == start, r.end == end, r.track_count == track_count,
 //@end
 
-//@skeleton model/src/json_serialisation/mod.rs fn create_service_trips : closure find#0; closure find#1; let arrival_time; let distance; let seated; stmt "if passengers == 0"; let maximal_formation_count; let service_trip = 12927ca4bdc42ab4
+//@skeleton model/src/json_serialisation/mod.rs fn create_service_trips : closure find#0; closure find#1; let origin; let destination; let departure_time; let arrival_time; let distance; let seated; stmt "if passengers == 0"; let maximal_formation_count; let service_trip = fd090da4899b1365
 
 // the two look-ups by id (`.iter().find(<closure>).unwrap()`: A-lib, `find` returns the first element the closure accepts;
 // the `unwrap` needs that one exists: "references resolve" of the input format)
@@ -466,6 +466,32 @@ pub type DateTimeString = String;
     ensures r == (segment.id@ == departure_segment.route_segment@), // @obl C17.loader.route_segment_is_found_by_the_referenced_id
 //@end
 
+//@frag model/src/json_serialisation/mod.rs fn create_service_trips : let origin as frag_trip_origin
+//@params locations: &Locations, location_lookup: &StdMap<IdType, LocationIdx>, route_segment: &&RouteSegment
+//@ret (r: Location)
+//@sig
+    requires
+        // documented input format: "references resolve"
+        location_lookup@.contains_key(route_segment.origin),
+        locations.stations@.contains_key(location_lookup@[route_segment.origin]),
+    ensures r == Location::Station(location_lookup@[route_segment.origin]), // @obl C17.loader.origin_is_the_route_segments_origin
+//@end
+//@frag model/src/json_serialisation/mod.rs fn create_service_trips : let destination as frag_trip_destination
+//@params locations: &Locations, location_lookup: &StdMap<IdType, LocationIdx>, route_segment: &&RouteSegment
+//@ret (r: Location)
+//@sig
+    requires
+        location_lookup@.contains_key(route_segment.destination),
+        locations.stations@.contains_key(location_lookup@[route_segment.destination]),
+    ensures r == Location::Station(location_lookup@[route_segment.destination]), // @obl C17.loader.destination_is_the_route_segments_destination
+//@end
+//@frag model/src/json_serialisation/mod.rs fn create_service_trips : let departure_time as frag_trip_departure
+//@params departure_segment: &DepartureSegment
+//@ret (r: DateTime)
+//@sig
+    requires dt_text_ok(departure_segment.departure@),
+    ensures r == dt_of_text(departure_segment.departure@), // @obl C17.loader.departure_is_the_departure_segments_time
+//@end
 //@frag model/src/json_serialisation/mod.rs fn create_service_trips : let arrival_time as frag_arrival_time
 //@params departure_time: DateTime, route_segment: &&RouteSegment
 //@ret (r: DateTime)
